@@ -62,10 +62,13 @@ def _mods():
 
 def _poly(case):
     puan, pnd, np = _mods()
+    kw = {}
+    if case.get("mdtype"):
+        kw["dtype"] = getattr(np, case["mdtype"])       # the matrix held in a narrower integer type (constructor parameter)
     if case.get("vars"):
         vs = [puan.variable.support_vector_variable()] + [puan.variable(v[0], (v[1], v[2])) for v in case["vars"]]
-        return pnd.ge_polyhedron(case["m"], variables=vs)
-    return pnd.ge_polyhedron(case["m"])
+        return pnd.ge_polyhedron(case["m"], variables=vs, **kw)
+    return pnd.ge_polyhedron(case["m"], **kw)
 
 
 def _expected(M, pts):
@@ -106,6 +109,8 @@ def _compare(name, r, exp, info, M, pts, note=""):
 
 
 def _pts_dtype(np, pts, case):
+    if case.get("flavour") == "extreme":
+        return np.int64
     """points arrive as int64, or as the narrowest signed integer dtype that holds them (callers slice them out of int16
     / int32 arrays); the classification must not depend on that"""
     flat = []
@@ -210,7 +215,43 @@ def points_case(draw):
         case["vars"] = vs
     if draw(st.integers(0, 3)) == 0:
         case["alias"] = True
+    mx = max(abs(x) for row in M for x in row)
+    md = draw(st.sampled_from([None, None, "int16", "int32"]))
+    if md and mx <= (32767 if md == "int16" else 2 ** 31 - 1):
+        case["mdtype"] = md
     return case
+
+
+@st.composite
+def extreme_case(draw):
+    """rows with ONE non-zero coefficient and magnitudes near the end of int64: every A.x and every b fits int64, but
+    their difference need not"""
+    nr = draw(st.integers(1, 4))
+    nc = draw(st.integers(1, 3))
+    big = st.sampled_from([10 ** 18, 15 * 10 ** 17, 2 * 10 ** 18, 3 * 10 ** 18, 2 ** 62, 2 ** 61 + 12345, 9 * 10 ** 17])
+    sgn = st.sampled_from([1, -1])
+    A, b = [], []
+    for _ in range(nr):
+        row = [0] * nc
+        j = draw(st.integers(0, nc - 1))
+        row[j] = draw(st.sampled_from([1, 2, 3, -1, -2, -3]))
+        A.append(row)
+        b.append(draw(sgn) * draw(st.sampled_from([6 * 10 ** 18, 4 * 10 ** 18, 9 * 10 ** 18, 2 ** 62, 10 ** 18, 0, 5])))
+    nd = draw(st.sampled_from([1, 2, 3]))
+    ng = draw(st.integers(1, 2)) if nd == 3 else 1
+    npts = draw(st.integers(1, 3)) if nd >= 2 else 1
+    groups = [[[draw(sgn) * draw(big) if draw(st.booleans()) else draw(st.integers(-3, 3)) for _ in range(nc)] for _ in range(npts)]
+              for _ in range(ng)]
+    # keep every product inside int64
+    for g in groups:
+        for p_ in g:
+            for r in range(nr):
+                for j in range(nc):
+                    if abs(A[r][j] * p_[j]) >= 2 ** 63:
+                        p_[j] = p_[j] // 4
+    M = [[b[r]] + A[r] for r in range(nr)]
+    pts = groups[0][0] if nd == 1 else groups[0] if nd == 2 else groups
+    return {"m": M, "pts": pts, "flavour": "extreme"}
 
 
 def check_derived(case, ev):
@@ -279,4 +320,5 @@ def derived_case(draw):
 
 def parts(tier):
     return [Part("derived", strategy=lambda t: derived_case(), check=check_derived, quick=(3, 500), thorough=(6, 8000)),
+            Part("extreme", strategy=lambda t: extreme_case(), check=check_points, quick=(1, 400), thorough=(2, 5000)),
             Part("points", strategy=lambda t: points_case(), check=check_points, quick=(8, 700), thorough=(16, 20000))]
